@@ -163,10 +163,17 @@ class Rat:
         return None
 
     def simple(self) -> "Rat":
-        """Divide through by a constant denominator."""
+        """Canonical scaling: constant denominators are divided through; otherwise numerator and
+        denominator are scaled so that the denominator's leading coefficient (in monomial order) is 1."""
         c = self.d.const_value()
-        if c is not None and c != 0 and c != 1:
-            return Rat(Poly({k: v / c for k, v in self.n.t.items()}))
+        if c is not None and c != 0:
+            if c != 1:
+                return Rat(Poly({k: v / c for k, v in self.n.t.items()}))
+            return self
+        if self.d.t:
+            lead = sorted(self.d.t.items(), key=lambda kv: str(kv[0]))[-1][1]
+            if lead != 1 and lead != 0:
+                return Rat(Poly({k: v / lead for k, v in self.n.t.items()}), Poly({k: v / lead for k, v in self.d.t.items()}))
         return self
 
     def key(self) -> str:
